@@ -207,6 +207,12 @@ class Verdict:
                     print("  detail: %s" % json.dumps(detail, default=str)[:600])
             if not seen:
                 print("VIOLATION property=%s replay=%s" % (self.pid, self.violations[0][2]))
+            if os.environ.get("VERIF_VERBOSE"):
+                shown = set()
+                for sig, detail, rd in self.violations:
+                    if sig not in shown:
+                        shown.add(sig)
+                        print("  [%s] %s" % (sig, json.dumps(detail, default=str)[:1500]))
             allsigs = sorted(set(x[0] for x in self.violations))
             print("  all deviation signatures (%d): %s" % (len(allsigs), "; ".join(allsigs)[:3000]))
             return 1
